@@ -236,7 +236,7 @@ func GetPduSessionModificationRequest(pduSessionId uint8) []byte {
 		nasMessage.Epd5GSSessionManagementMessage)
 	pduSessionModificationRequest.SetMessageType(nas.MsgTypePDUSessionModificationRequest)
 	pduSessionModificationRequest.PDUSessionID.SetPDUSessionID(pduSessionId)
-	pduSessionModificationRequest.PTI.SetPTI(0x00)
+	pduSessionModificationRequest.PTI.SetPTI(0x01)
 	// pduSessionModificationRequest.RequestedQosFlowDescriptions = nasType.NewRequestedQosFlowDescriptions(nasMessage.
 	// PDUSessionModificationRequestRequestedQosFlowDescriptionsType)
 	// pduSessionModificationRequest.RequestedQosFlowDescriptions.SetLen(6)
@@ -311,7 +311,7 @@ func GetPduSessionReleaseRequest(pduSessionId uint8) []byte {
 		nasMessage.Epd5GSSessionManagementMessage)
 	pduSessionReleaseRequest.SetMessageType(nas.MsgTypePDUSessionReleaseRequest)
 	pduSessionReleaseRequest.PDUSessionID.SetPDUSessionID(pduSessionId)
-	pduSessionReleaseRequest.PTI.SetPTI(0x00)
+	pduSessionReleaseRequest.PTI.SetPTI(0x01)
 
 	m.GsmMessage.PDUSessionReleaseRequest = pduSessionReleaseRequest
 
@@ -335,7 +335,7 @@ func GetPduSessionReleaseComplete(pduSessionId uint8) []byte {
 		nasMessage.Epd5GSSessionManagementMessage)
 	pduSessionReleaseComplete.SetMessageType(nas.MsgTypePDUSessionReleaseComplete)
 	pduSessionReleaseComplete.PDUSessionID.SetPDUSessionID(pduSessionId)
-	pduSessionReleaseComplete.PTI.SetPTI(0x00)
+	pduSessionReleaseComplete.PTI.SetPTI(0x01)
 
 	m.GsmMessage.PDUSessionReleaseComplete = pduSessionReleaseComplete
 
